@@ -92,7 +92,7 @@ def run_C08(ctx):
 def run_C11(ctx):
     # the binary-header helpers (round trip, padded and unpadded input) are part of C11 too
     from . import p_scalars
-    p_scalars.scalars(ctx, {"b64"}, [dict(op="sweep_pct", n=5000 if ctx.tier == "quick" else 200000)])
+    p_scalars.scalars(ctx, {"b64", "errmeta_limit"}, [dict(op="sweep_pct", n=5000 if ctx.tier == "quick" else 200000)])
     return run_wire(ctx, ["C11"], 8000, 16800, 300)
 
 
